@@ -7,68 +7,73 @@ package c18
 // Frozen; the verdict threshold is floor + marginBits. High-precision sets are clamped at 2^-50
 // (the harness decodes into float64).
 var floors = map[string]float64{
-	"arcsine3-n9": -24.1, // n=31
-	"arcsine5-n9": -23.9, // n=31
-	"arcsine7-n9": -26.7, // n=31
-	"base-n10": -24.7, // n=34
-	"base-n11": -24.4, // n=33
-	"base-n8": -24.6, // n=34
-	"base-n9": -24.6, // n=35
-	"ci-n10": -24.6, // n=36
-	"ci-n9": -24.7, // n=36
-	"coscont-n9": -25.0, // n=36
-	"cosdisc-r0-n9": -27.1, // n=33
-	"cosdisc-r1-n9": -23.2, // n=35
-	"cosdisc-r2-n9": -15.8, // n=32
-	"cosdisc-r3-n9": -27.2, // n=32
-	"def-N16QP1546H192H32": -24.6, // n=32
-	"def-N16QP1547H192H32": -28.0, // n=34
-	"def-N16QP1767H32768H32": -24.3, // n=35
-	"def-N16QP1788H32768H32": -28.3, // n=33
-	"dense-eph32-n9": -24.4, // n=34
-	"dense-noeph-n8": -24.3, // n=34
-	"dft-c2s1-n8": -21.4, // n=36
-	"dft-c2s2-s2c1-n9": -23.6, // n=33
-	"dft-deep-n9": -21.5, // n=35
-	"eph8-k8-n9": -27.2, // n=29
-	"evalmod50-n9": -15.0, // n=32
+	"arcsine3-n9":             -24.1, // n=31
+	"arcsine5-n9":             -23.9, // n=31
+	"arcsine7-n9":             -26.7, // n=31
+	"base-n10":                -24.7, // n=34
+	"base-n11":                -24.4, // n=33
+	"base-n8":                 -24.6, // n=34
+	"base-n9":                 -24.6, // n=35
+	"ci-n10":                  -24.6, // n=36
+	"ci-n9":                   -24.7, // n=36
+	"coscont-n9":              -25.0, // n=36
+	"cosdisc-r0-n9":           -27.1, // n=33
+	"cosdisc-r1-n9":           -23.2, // n=35
+	"cosdisc-r2-n9":           -15.8, // n=32
+	"cosdisc-r3-n9":           -27.2, // n=32
+	"def-N15QP768H192H32":     -9.3,  // n=36
+	"def-N15QP880H16384H32":   -11.2, // n=36
+	"def-N16QP1546H192H32":    -24.6, // n=32
+	"def-N16QP1547H192H32":    -28.0, // n=34
+	"def-N16QP1553H192H32":    -15.0, // n=36
+	"def-N16QP1767H32768H32":  -24.3, // n=35
+	"def-N16QP1788H32768H32":  -28.3, // n=33
+	"def-N16QP1793H32768H32":  -15.1, // n=36
+	"dense-eph32-n9":          -24.4, // n=34
+	"dense-noeph-n8":          -24.3, // n=34
+	"dft-c2s1-n8":             -21.4, // n=36
+	"dft-c2s2-s2c1-n9":        -23.6, // n=33
+	"dft-deep-n9":             -21.5, // n=35
+	"dft-s2c-merged-n9":       -19.6, // n=36
+	"eph8-k8-n9":              -27.2, // n=29
+	"evalmod50-n9":            -15.0, // n=32
 	"hp80-iter1-noreserve-n9": -49.5, // n=32
-	"hp80-n9": -50.0, // n=34
-	"hp80-noiter-n9": -24.5, // n=32
-	"iter1-reserved-n9": -31.1, // n=30
-	"logp1-n9": -24.6, // n=31
-	"logp55x3-n9": -12.7, // n=35
-	"n1lt-n10-d1": -25.4, // n=27
-	"n1lt-n10-d2": -26.1, // n=25
-	"n1lt-n10-d4": -27.2, // n=22
-	"n1lt-n9-d1-slots6": -26.4, // n=22
-	"n1lt-noeph-n9": -25.2, // n=26
-	"order-custom-n8": -24.6, // n=34
-	"order-decode-first-n8": -24.6, // n=29
-	"sin-arcsine-n9": -24.4, // n=35
-	"sin-n9": -24.2, // n=32
-	"slots1-n9": -29.1, // n=31
-	"slots2-n9": -28.9, // n=34
-	"slots5-n9": -27.2, // n=31
-	"slots7-n9": -25.1, // n=35
-	"sparse16-noeph-n9": -24.3, // n=35
+	"hp80-n9":                 -50.0, // n=34
+	"hp80-noiter-n9":          -24.5, // n=32
+	"iter1-reserved-n9":       -31.1, // n=30
+	"logp1-n9":                -24.6, // n=31
+	"logp55x3-n9":             -12.7, // n=35
+	"n1lt-n10-d1":             -25.4, // n=27
+	"n1lt-n10-d2":             -26.1, // n=25
+	"n1lt-n10-d4":             -27.2, // n=22
+	"n1lt-n9-d1-slots6":       -26.4, // n=22
+	"n1lt-noeph-n9":           -25.2, // n=26
+	"order-custom-n8":         -24.6, // n=34
+	"order-decode-first-n8":   -24.6, // n=29
+	"sin-arcsine-n9":          -24.4, // n=35
+	"sin-n9":                  -24.2, // n=32
+	"slots1-n9":               -29.1, // n=31
+	"slots2-n9":               -28.9, // n=34
+	"slots5-n9":               -27.2, // n=31
+	"slots7-n9":               -25.1, // n=35
+	"sparse16-noeph-n9":       -24.3, // n=35
 }
 
 // mod1Floors: same for the stand-alone mod1 evaluations: {integer part in the inner half, whole interval}.
 var mod1Floors = map[string][2]float64{
-	"coscont-k16-d127-r1": {-38.4, -37.7},
-	"coscont-k16-d63-r3": {-37.8, -37.6},
-	"coscont-k30-d63-r3": {-37.2, -36.4},
-	"coscont-k325-d177-r4": {-34.5, -33.6},
-	"cosdisc-k12-d30-r3": {-37.8, -30.5},
-	"cosdisc-k12-d30-r3-asin3": {-38.0, -33.2},
-	"cosdisc-k12-d30-r3-asin7": {-38.2, -33.9},
-	"cosdisc-k16-d30-r3": {-30.5, -4.5},
+	"coscont-k16-d127-r1":        {-38.4, -37.7},
+	"coscont-k16-d63-r3":         {-37.8, -37.6},
+	"coscont-k30-d63-r3":         {-37.2, -36.4},
+	"coscont-k325-d177-r4":       {-34.5, -33.6},
+	"cosdisc-k12-d30-r3":         {-37.8, -30.5},
+	"cosdisc-k12-d30-r3-asin3":   {-38.0, -33.2},
+	"cosdisc-k12-d30-r3-asin7":   {-38.2, -33.9},
+	"cosdisc-k16-d30-r3":         {-30.5, -4.5},
 	"cosdisc-k16-d30-r3-ratio14": {-29.5, -3.5},
-	"cosdisc-k5-d63-r0": {-38.4, -14.5},
-	"cosdisc-k8-d30-r2": {-25.7, -7.0},
-	"cosdisc-k8-d47-r1": {-31.5, -1.2},
-	"sin-k14-d127": {-35.1, -34.7},
-	"sin-k14-d127-asin7": {-35.2, -34.7},
-	"sin-k6-d63": {-28.7, -27.7},
+	"cosdisc-k5-d63-r0":          {-38.4, -14.5},
+	"cosdisc-k8-d30-r2":          {-25.7, -7.0},
+	"cosdisc-k8-d47-r1":          {-31.5, -1.2},
+	"sin-k14-d127":               {-35.1, -34.7},
+	"sin-k14-d127-asin7":         {-35.2, -34.7},
+	"sin-k6-d63":                 {-28.7, -27.7},
 }
